@@ -94,6 +94,32 @@ SnapDiff(I, r) ==
                  IF I.trace # r.trace \/ I.warn # r.warn THEN "flags" ELSE "",
                  IF I.keys # r.keys THEN "keys" ELSE "" >>, LAMBDA x : x # "")
 
+(***************************************************************************)
+(* The error caret (C01: "the error can be rendered as the offending       *)
+(* source line plus a caret"): get_line_with_pointer_caret.  For an error  *)
+(* with a location on a non-empty line: the line's canonical spelling and  *)
+(* a caret under the offending token; for a tokenization error: the        *)
+(* submitted text and carets under the offending bytes.  [ok, lines]:      *)
+(* ok = FALSE when the spelling contains a number the model does not print.*)
+(***************************************************************************)
+RECURSIVE SpacesBefore(_, _)
+SpacesBefore(toks, n) == IF n = 0 THEN 0 ELSE SpacesBefore(toks, n - 1) + Len(TokenSpelling(toks[n]).s) + 1
+Repeat(b, n) == [i \in 1..n |-> b]
+
+CaretLines(I, res, text) ==
+    LET located == res.hl /\ (res.line = IMM \/ res.line \in DOMAIN I.prog)
+        toks == IF located THEN TokensOf(I, res.line) ELSE <<>>
+    IN  IF toks # <<>>
+        THEN LET sp == TokensSpelling(toks)
+                 n == IF res.tok < Len(toks) THEN res.tok ELSE Len(toks)
+             IN  [ok |-> sp.ok, lines |-> <<sp.s, Repeat(SP, SpacesBefore(toks, n)) \o <<94>>>>]
+        ELSE IF Len(res.kind) > 20 /\ SubSeq(res.kind, 1, 20) = "syntax_tokenization_"
+        THEN LET pl == ParseLineNumber(text)
+                 lx == Tokenize(text, IF pl.some THEN pl.end ELSE 0)
+                 r == ErrRange(lx, text)
+             IN  [ok |-> TRUE, lines |-> <<text, Repeat(SP, r[1]) \o Repeat(94, r[2] - r[1])>>]
+        ELSE [ok |-> TRUE, lines |-> <<>>]
+
 OutAgrees(m, r) ==
     /\ m.t = r.t /\ m.line = r.line /\ m.what = r.what
     /\ (m.unk \/ m.text = r.text)
